@@ -69,3 +69,138 @@ theorem stats_fold (ver : UInt8) : ∀ (bs : List EBlock) (s : Stats),
     · rw [h6, g6]; omega
     · rw [h7, g7]; simp
 end CB
+
+namespace CB
+open W Csv
+
+/-! ### the per-type table: count and first occurrence -/
+
+abbrev Row := String × Nat × Nat × Bytes
+def lookupT (n : String) (ty : List Row) : Option Row := ty.find? (·.1 == n)
+
+theorem find_map_bump (n : String) (ty : List Row) (m : String) :
+    (ty.map (fun e => if e.1 == n then (e.1, e.2.1 + 1, e.2.2) else e)).find? (·.1 == m) =
+      (ty.find? (·.1 == m)).map (fun e => if e.1 == n then (e.1, e.2.1 + 1, e.2.2) else e) := by
+  induction ty with
+  | nil => rfl
+  | cons e ty ih =>
+    simp only [List.map_cons, List.find?_cons]
+    by_cases hen : (e.1 == n) = true
+    · simp only [hen, if_true]
+      by_cases hem : (e.1 == m) = true
+      · simp only [hem, Option.map_some, hen, if_true]
+      · simp only [hem]; exact ih
+    · simp only [hen, Bool.false_eq_true, if_false]
+      by_cases hem : (e.1 == m) = true
+      · simp only [hem, Option.map_some, hen, Bool.false_eq_true, if_false]
+      · simp only [hem]; exact ih
+
+theorem any_iff_lookup (n : String) (ty : List Row) : ty.any (·.1 == n) = (lookupT n ty).isSome := by
+  induction ty with
+  | nil => rfl
+  | cons e ty ih =>
+    simp only [List.any_cons, lookupT, List.find?_cons]
+    by_cases h : (e.1 == n) = true
+    · simp [h]
+    · simp only [h, Bool.false_or]; exact ih
+
+/-- one more output of type `n`: its row's count goes up by one, or a new row (count 1, this height and txid) is appended -/
+theorem bump_same (ty : List Row) (n : String) (h : Nat) (id : Bytes) :
+    lookupT n (bump ty n h id) = match lookupT n ty with
+      | some e => some (e.1, e.2.1 + 1, e.2.2)
+      | none => some (n, 1, h, id) := by
+  unfold bump
+  rw [any_iff_lookup]
+  cases hl : lookupT n ty with
+  | none =>
+    simp only [Option.isSome_none, Bool.false_eq_true, if_false]
+    unfold lookupT at hl ⊢
+    rw [List.find?_append, hl]
+    simp
+  | some e =>
+    simp only [Option.isSome_some, if_true]
+    unfold lookupT at hl ⊢
+    rw [find_map_bump, hl]
+    have : (e.1 == n) = true := List.find?_some (p := fun x : Row => x.1 == n) hl
+    simp only [Option.map_some, this, if_true]
+
+/-- rows of other types are untouched -/
+theorem bump_other (ty : List Row) (n m : String) (h : Nat) (id : Bytes) (hne : m ≠ n) :
+    lookupT m (bump ty n h id) = lookupT m ty := by
+  unfold bump
+  by_cases ha : ty.any (·.1 == n) = true
+  · simp only [ha, if_true]
+    unfold lookupT
+    rw [find_map_bump]
+    cases hf : ty.find? (·.1 == m) with
+    | none => rfl
+    | some e =>
+      have hem : (e.1 == m) = true := List.find?_some (p := fun x : Row => x.1 == m) hf
+      have : ¬ (e.1 == n) = true := by
+        intro h2
+        have e1 : e.1 = m := by simpa using hem
+        have e2 : e.1 = n := by simpa using h2
+        exact hne (e1.symm.trans e2)
+      simp only [Option.map_some, this, Bool.false_eq_true, if_false]
+  · simp only [ha, Bool.false_eq_true, if_false]
+    unfold lookupT
+    rw [List.find?_append]
+    have : ¬ (n == m) = true := by simpa using fun e : n = m => hne e.symm
+    cases ty.find? (·.1 == m) <;> simp [this]
+
+/-- the outputs of the delivered blocks in chain order, each with its type name, height and txid -/
+def typeEvents (ver : UInt8) (bs : List EBlock) : List (String × Nat × Bytes) :=
+  bs.flatMap fun b => b.blk.txs.flatMap fun t => t.outs.map fun o => ((S.eval ver o.script).pattern.name, b.height, txid t)
+
+def bumpAll (evs : List (String × Nat × Bytes)) (ty : List Row) : List Row :=
+  evs.foldl (fun ty e => bump ty e.1 e.2.1 e.2.2) ty
+
+/-- **per-type count and first occurrence.**  After any sequence of outputs, the row of type `n` holds the number of outputs
+    of that type (added to what was there) and keeps the height/txid of the first one; a type that never occurred has no row -/
+theorem bumpAll_lookup (n : String) : ∀ (evs : List (String × Nat × Bytes)) (ty : List Row),
+    lookupT n (bumpAll evs ty) = match lookupT n ty with
+      | some e => some (e.1, e.2.1 + (evs.filter (·.1 == n)).length, e.2.2)
+      | none => ((evs.find? (·.1 == n)).map fun f => (n, (evs.filter (·.1 == n)).length, f.2.1, f.2.2)) := by
+  intro evs
+  induction evs with
+  | nil => intro ty; cases h : lookupT n ty <;> simp [bumpAll, h]
+  | cons e evs ih =>
+    intro ty
+    simp only [bumpAll, List.foldl_cons] at ih ⊢
+    rw [ih]
+    by_cases hen : (e.1 == n) = true
+    · have e1 : e.1 = n := by simpa using hen
+      rw [e1, bump_same]
+      simp only [List.filter_cons, List.find?_cons, e1, beq_self_eq_true, if_true, List.length_cons, Option.map_some]
+      cases lookupT n ty with
+      | none => simp; omega
+      | some r => simp; omega
+    · have hne : n ≠ e.1 := fun h => hen (by simp [h])
+      rw [bump_other ty e.1 n e.2.1 e.2.2 hne]
+      simp only [List.filter_cons, List.find?_cons, hen, Bool.false_eq_true, if_false]
+
+/-- the type table of the whole run is `bumpAll` over the outputs in chain order -/
+theorem stats_types (ver : UInt8) (bs : List EBlock) (s : Stats) :
+    (bs.foldl (statsBlock ver) s).types = bumpAll (typeEvents ver bs) s.types := by
+  have tx : ∀ (height : Nat) (txs : List RTx) (s : Stats),
+      (txs.foldl (statsTx ver height) s).types =
+        bumpAll (txs.flatMap fun t => t.outs.map fun o => ((S.eval ver o.script).pattern.name, height, txid t)) s.types := by
+    intro height txs
+    induction txs with
+    | nil => intro s; rfl
+    | cons t txs ih =>
+      intro s
+      simp only [List.foldl_cons, List.flatMap_cons, bumpAll, List.foldl_append] at ih ⊢
+      rw [ih]
+      congr 1
+      simp only [statsTx, List.foldl_map]
+  induction bs generalizing s with
+  | nil => rfl
+  | cons b bs ih =>
+    simp only [List.foldl_cons, typeEvents, List.flatMap_cons, bumpAll, List.foldl_append] at ih ⊢
+    rw [ih]
+    congr 1
+    simp only [statsBlock]
+    rw [tx]
+    rfl
+end CB
